@@ -13,6 +13,7 @@ import random
 from tsv.base import Prop, fail, short
 from tsv.gen import docgen
 from tsv.model import tree2ast
+from tsv.model.align import only_ws_before_openers_removed
 from tsv.props import common
 
 DIAG = (EOFError, TypeError, AssertionError)
@@ -35,6 +36,16 @@ CONTEXTS = {
     'math\\[': ('\\[x ', 'y\\] \\keep{1}'),
     'mathenv': ('\\begin{equation}x ', 'y\\end{equation}'),
     'nested': ('\\begin{center}\\outer{a {b ', 'c} d}\\end{center}'),
+    # the comment directly follows the opener / a command / a closer
+    'after-$': ('$', 'y$ \\keep{1}'),
+    'after-$$': ('$$', 'y$$'),
+    'after-brace': ('\\outer{', 'q} \\keep{1}'),
+    'after-bracket': ('\\outer[', 'q]{r}'),
+    'after-begin': ('\\begin{center}', 'f\\end{center}'),
+    'after-item': ('\\begin{itemize}\\item', 'two\\end{itemize}'),
+    'after-command': ('\\keep', 'z'),
+    'after-end': ('\\begin{center}c\\end{center}', 'z'),
+    'after-closing-brace': ('\\keep{1}', '{g}'),
 }
 
 
@@ -84,7 +95,7 @@ def outcome(src):
 class C10(Prop):
     id = 'C10'
     level = 'exploration'
-    rule = ('cases: 13 contexts x k in 0..4 backslashes x pairs of payloads '
+    rule = ('cases: 22 contexts x k in 0..4 backslashes x pairs of payloads '
             'over a hostile alphabet (braces, brackets, dollars, backslashes, '
             '\\begin/\\end/\\item, %, commands), closed by a line break or (top '
             'level) by end of input. non-trivial = payload contains at least '
@@ -165,7 +176,9 @@ class C10(Prop):
             if sa is not None:
                 ctx.count('escaped_cases_parsed')
                 ra = str(sa)
-                if ra != src:
+                # the payload is ordinary content here, so a command at its end
+                # may take a following group across the line break (C08 relation)
+                if ra != src and only_ws_before_openers_removed(src, ra):
                     return [fail('escaped-percent', 'round trip of %s gives %s'
                                  % (short(repr(src), 100), short(repr(ra), 100)))]
                 x = shape(sa)
